@@ -339,16 +339,21 @@ def check_c18(seed, tier):
         try:
             try:
                 t = _open(path, records_per_chunk=rpc)
-                ok_tree = True
-                for node in t["imagery"].children.values():
-                    da = node["data"]
-                    v = da.values
-                    if v.shape != da.shape or any(node[c].shape[0] != da.shape[0] for c in node.coords if node[c].dims == ("rows",)):
-                        ok_tree = False
-                res = "returned-consistent" if ok_tree else "returned-inconsistent"
                 exc = None
             except Exception as e:  # noqa: BLE001
                 res, exc = "raised", e
+            if exc is None:
+                # the open returned: every declared line must be loadable
+                ok_tree = True
+                try:
+                    for node in t["imagery"].children.values():
+                        da = node["data"]
+                        v = da.values
+                        if v.shape != da.shape or any(node[c].shape[0] != da.shape[0] for c in node.coords if node[c].dims == ("rows",)):
+                            ok_tree = False
+                except Exception:  # noqa: BLE001
+                    ok_tree = False
+                res = "returned-consistent" if ok_tree else "returned-inconsistent"
         finally:
             clean()
         dt = time.time() - t0
@@ -385,7 +390,8 @@ def check_c18(seed, tier):
             if tier == "quick":
                 pts = rng.sample(pts, min(len(pts), 14))
             for cut in pts:
-                for rpc in ([max(1, n - 2), n, n + 1] if tier != "quick" else [rng.choice([1, max(1, n - 2), n, n + 1, 1024])]):
+                rpc_all = sorted({1, 2, max(1, n - 1), n, n + 1, 1024})
+                for rpc in (rpc_all if tier != "quick" else rng.sample(rpc_all, 2)):
                     files = dict(prod.files)
                     files[im.name] = im.data[:cut]
                     distinct.add((n, m, level, "img", cut, rpc))
